@@ -45,12 +45,12 @@ def exportAddrs (csrBase paging alignment busword : Nat) (banks : List Bank) : L
 /-- Address of word `j` of a register entry, as the generated accessors compute it (`reg_base + sub*stride`). -/
 def wordAddr (stride : Nat) (e : Nat × Nat) (j : Nat) : Nat := e.1 + j * stride
 
-/-- `get_csr_header(regions, csr_base=csrBaseArg)`: offsets are taken relative to the first region's origin
-    (`_csr_base`) and printed relative to the `csr_base` argument. -/
-def headerAddrs (csrBaseArg firstOrigin csrBase paging alignment busword : Nat) (banks : List Bank) :
+/-- `get_csr_header(regions, csr_base=csrBaseArg)`: region offsets are taken relative to the `csr_base` argument
+    (`origin = region.origin - csr_base`, fix 13a914e) and printed as `CSR_BASE + offset`. -/
+def headerAddrs (csrBaseArg csrBase paging alignment busword : Nat) (banks : List Bank) :
     List (List (Nat × Nat)) :=
   banks.map fun b =>
-    (regAddrs (alignment / 8) busword (regionOrigin csrBase paging b - firstOrigin) b.regs).map
+    (regAddrs (alignment / 8) busword (regionOrigin csrBase paging b - csrBaseArg) b.regs).map
       fun e => (csrBaseArg + e.1, e.2)
 
 /-- `get_csr_svd`: `DocumentedCSRRegion.document_csr` emits one entry per simple CSR of a compound register with
@@ -98,6 +98,17 @@ def hwDecode (busword aw paging : Nat) (banks : List Bank) (off : Nat) : List (N
 
 /-- `SoCCSRHandler`: `n_locs = alignment//8 * 2**address_width // paging`. -/
 def nLocs (alignment aw paging : Nat) : Nat := alignment / 8 * 2 ^ aw / paging
+
+/-- Pairwise distinct pages (`SoCLocHandler.add`: "Location already used"). -/
+def pagesDistinct : List Nat → Bool
+  | [] => true
+  | p :: rest => !rest.contains p && pagesDistinct rest
+
+/-- The build-time checks: every page below `n_locs` (`SoCLocHandler.add`, fix 27beba3), pages distinct, and every
+    bank fits its page (`SoC.finalize`, fix 873969e).  A refused configuration raises `SoCError`. -/
+def accepts (alignment aw paging busword : Nat) (banks : List Bank) : Bool :=
+  banks.all (fun b => decide (b.page < nLocs alignment aw paging) && decide (nsimple busword b.regs ≤ paging / 4))
+    && pagesDistinct (banks.map (·.page))
 
 /-! ### CSR memory windows (`csr_bus.SRAM`, memory width ≤ bus word, no paging register) -/
 
